@@ -310,7 +310,7 @@ func TestProp(t *testing.T) {
 	}
 	reps := 1
 	if vh.Thorough() {
-		reps = 12
+		reps = 48
 	}
 	// A/B/D: client scenarios
 	si := 0
